@@ -859,6 +859,19 @@ func (runInfo *runInfoStruct) invokeMakeExpr(expr *ast.MakeExpr) {
 		return
 	}
 
+	// the size operands of the other kinds are operands like any other: evaluated, then unused
+	// (a map takes its size as a hint only)
+	for _, operand := range []ast.Expr{expr.LenExpr, expr.CapExpr} {
+		if operand == nil {
+			continue
+		}
+		runInfo.expr = operand
+		runInfo.invokeExpr()
+		if runInfo.err != nil {
+			return
+		}
+	}
+
 	runInfo.rv, runInfo.err = makeValue(t)
 }
 
